@@ -1,11 +1,13 @@
 (* Correspondence and property oracles for the isolation engine (C19). *)
-From RV Require Export Base.Util Model.GraceMap.
+From RV Require Export Base.Util Model.GraceMap Model.Expect.
 
 Inductive icase :=
 | IGrace (ops : list gop) (obs : list (option bool))
          (alone : list (list string * list bool))   (* per owner: its controller keys, and the answers the real store gave when only its calls ran *)
          (panicked : bool)
 | IGracePar (pairs : list (list bool * list bool)) (panicked : bool)   (* per owner: answers alone / with all owners on concurrent goroutines *)
+| IExpect (ops : list eop) (obs : list (option bool)) (alone : list (list string * list bool)) (panicked : bool)
+| IParK (what : string) (pairs : list (string * string)) (panicked : bool)   (* like IPar, for another piece of process-wide state *)
 | IPar (pairs : list (string * string)) (panicked : bool).   (* per rollout: digest of its objects after running alone / concurrently with the others *)
 Definition case := icase.
 
@@ -19,6 +21,15 @@ Fixpoint observed_answers (mine : gkey -> bool) (ops : list gop) (obs : list (op
   | _, _ => []
   end.
 
+Fixpoint erun (s : estore) (ops : list eop) : list (option bool) :=
+  match ops with [] => [] | o :: t => let '(s', a) := estep s o in a :: erun s' t end.
+Fixpoint observed_eanswers (mine : string -> bool) (ops : list eop) (obs : list (option bool)) : list bool :=
+  match ops, obs with
+  | ESatisfied k :: t, Some b :: o => if mine k then b :: observed_eanswers mine t o else observed_eanswers mine t o
+  | _ :: t, _ :: o => observed_eanswers mine t o
+  | _, _ => []
+  end.
+
 Definition judge (c : case) : list verdict :=
   match c with
   | IGrace ops obs alone p =>
@@ -27,6 +38,12 @@ Definition judge (c : case) : list verdict :=
       clause "C19_grace_answers_as_alone" (forallb (fun a => list_eqb Bool.eqb (observed_answers (owner_keys (fst a)) ops obs) (snd a)) alone) ]
   | IGracePar pairs p =>
     [ clause "C19_grace_answers_as_alone" (forallb (fun x => list_eqb Bool.eqb (fst x) (snd x)) pairs); clause "C19_no_panic" (negb p) ]
+  | IExpect ops obs alone p =>
+    [ if list_eqb (opt_eqb Bool.eqb) (erun eempty ops) obs && negb p then VOk else VMismatch;
+      clause "C19_creation_expectations_as_alone"
+        (forallb (fun a => list_eqb Bool.eqb (observed_eanswers (fun k => existsb (String.eqb k) (fst a)) ops obs) (snd a)) alone) ]
+  | IParK what pairs p =>
+    [ clause ("C19_same_as_alone_" ++ what) (forallb (fun x => String.eqb (fst x) (snd x)) pairs); clause "C19_no_panic" (negb p) ]
   | IPar pairs p =>
     [ clause "C19_same_final_state_as_alone" (forallb (fun x => String.eqb (fst x) (snd x)) pairs);
       clause "C19_no_panic" (negb p) ]
@@ -36,5 +53,7 @@ Definition tag (c : case) : string :=
   match c with
   | IGrace _ _ alone _ => if (zlen alone <=? 2)%Z then "grace/2-owners" else "grace/3-owners"
   | IGracePar _ _ => "grace/concurrent"
+  | IExpect _ _ _ _ => "expectations/store"
+  | IParK what _ _ => "parallel/" ++ what
   | IPar pairs _ => if (zlen pairs <=? 2)%Z then "parallel/2-rollouts" else "parallel/3-rollouts"
   end.
